@@ -103,6 +103,7 @@ class Interp:
         # free_signals: every signal and component port is an independent indeterminate (C07): a read asks `inputs`, whatever was assigned
         self.free_signals = free_signals
         self.node_seq = {}         # (start, end, tag) -> values in evaluation order
+        self.deps = {}             # local variable -> the signals its current (symbolic) value is built from
         self.ssa = ssa
         self.p = prime
         self.inputs = inputs
@@ -141,6 +142,32 @@ class Interp:
             # declared local; for arrays an empty (all-zero) array
             return 0
         raise Abort("undeclared variable " + v[1])
+
+    def dep_eval(self, e):
+        """the signals the value of `e` is built from, looking through local variables (a signal is an atom)"""
+        out = set()
+
+        def walk(x):
+            if not isinstance(x, list) or not x:
+                return
+            if x[0] in ("var", "acc", "upd") and isinstance(x[2], list) and x[2] and x[2][0] == "v":
+                v = x[2]
+                ty = self.types.get((v[1], v[2]))
+                if ty == "signal":
+                    out.add(v[1])
+                elif ty == "local" or ty is None:
+                    out.update(self.deps.get(vkey(v), ()))
+            if x[0] == "phi":
+                return
+            for y in x[1:]:
+                if isinstance(y, list):
+                    if y and isinstance(y[0], list):
+                        for z in y:
+                            walk(z)
+                    else:
+                        walk(y)
+        walk(e)
+        return frozenset(out)
 
     def note(self, e, val):
         m = e[1]
@@ -221,6 +248,7 @@ class Interp:
                         if cands:
                             best = max(cands, key=lambda a: self.when.get(vkey(a), -1))
                             val = self.store[vkey(best)]
+                            self.deps[vkey(var)] = self.deps.get(vkey(best), frozenset())
                         else:
                             val = 0
                         self.assign(var, val, steps, si, cur)
@@ -254,6 +282,7 @@ class Interp:
                             arr2[tuple(idx)] = val
                             self.store[vkey(var)] = arr2
                         else:
+                            self.deps[vkey(var)] = self.deps.get(vkey(rhe[2]), frozenset()) | self.dep_eval(rhe[4]) | self.dep_eval(rhe[3])
                             self.assign(var, arr, steps, si, cur)
                         continue
                     val = self.eval(rhe)
@@ -269,6 +298,7 @@ class Interp:
                     elif ty in ("component", "anoncomponent"):
                         pass
                     else:
+                        self.deps[vkey(var)] = self.dep_eval(rhe)
                         self.assign(var, val, steps, si, cur)
                 elif kind == "if":
                     c = self.eval(body[2])
@@ -285,7 +315,7 @@ class Interp:
                     self.trace.append(("return", self.eval(body[2])))
                     return
                 elif kind == "ceq":
-                    self.trace.append(("constraint", self.eval(body[2]), self.eval(body[3]), (cur, si)))
+                    self.trace.append(("constraint", self.eval(body[2]), self.eval(body[3]), (cur, si), self.dep_eval(body[2]) | self.dep_eval(body[3])))
                 elif kind == "assert":
                     v = self.eval(body[2])
                     self.trace.append(("assert", v != 0))
